@@ -8,13 +8,13 @@ SPEC = {'level': 'exploration',
                  'flag sets respect the interpreter preconditions (CLEANSTACK => P2SH|WITNESS, WITNESS => P2SH)',
                  'node level: one byte string drives the same MempoolSim history on a node with 1 MiB / 4 KiB caches and then on a node with 0-byte caches (CuckooCache then '
                  'holds 2 entries); all verdicts, tips and pool contents must agree line by line; the history generator is a deterministic function of the bytes and node state'],
- 'stages': [gen('vh_c13', 'c13_checkinputs', 2400, 40000, min_cases_quick=800,
-                floors={'accept-then-reject-same-wtxid': 0.5, 'expected-script-cache-hit': 0.7, 'same-txid-different-witness-evaluated': 0.3, 'twin-accepted-and-rejected': 0.15,
-                        'script-cache-hit-observed': 0.3, 'variant:bad-sig': 0.4, 'variant:lax-der': 0.15, 'variant:multisig-repeated-sig': 0.02, 'some-rejected': 0.9},
+ 'stages': [gen('vh_c13', 'c13_checkinputs', 12000, 200000, min_cases_quick=4000,
+                floors={'accept-then-reject-same-wtxid': 0.35, 'expected-script-cache-hit': 0.3, 'same-txid-different-witness-evaluated': 0.3, 'twin-accepted-and-rejected': 0.15,
+                        'script-cache-hit-observed': 0.1, 'variant:bad-sig': 0.4, 'variant:lax-der': 0.15, 'variant:multisig-repeated-sig': 0.02, 'some-rejected': 0.9},
                 rule='40-160 CheckInputScripts calls per case on one ValidationCache vs cache-free evaluation; non-trivial = a wtxid accepted then rejected under another flag set and '
                      'an expected script-cache hit'),
             gen('vh_c13', 'c13_twin', 256, 4000, min_cases_quick=100,
-                floors={'block-with-pool-txs': 0.3, 'reorg': 0.2, 'policy-only-invalid-flow': 0.2, 'candidate-block-tested': 0.3, 'resubmit': 0.2},
+                floors={'block-with-pool-txs': 0.3, 'reorg': 0.1, 'policy-only-invalid-flow': 0.2, 'candidate-block-tested': 0.25, 'resubmit': 0.2},
                 rule='same history on a caching node and on a 0-byte-cache node; non-trivial = block with pool txs mined and (reorg or policy-only-invalid flow) and >=3 accepted')]}
 
 META = {'level_text': 'Generated coin worlds (P2PKH, P2WPKH, P2SH-P2WPKH, P2TR, P2PK, CLTV/CSV scripts, 2-of-2 and 1-of-1 multisig, anyone-can-spend) and transactions with defect '
